@@ -37,7 +37,14 @@ def compare(rep, geo, rng, key, det, work, viafile):
                 dat.grid = grid
                 f = os.path.join(work, "m.dat")
                 dat.write(f)
-                grid = t2data.t2data(f).grid
+                grid0, grid = grid, t2data.t2data(f).grid
+                # the grid re-read from the file is the grid that was written: same blocks, same connections, by name
+                if [b.name for b in grid.blocklist] != [b.name for b in grid0.blocklist] or \
+                        [tuple(b.name for b in c.block) for c in grid.connectionlist] != [tuple(b.name for b in c.block) for c in grid0.connectionlist]:
+                    det["difference"] = "block or connection names of the re-read grid differ from those written: %r vs %r" % (
+                        [b.name for b in grid.blocklist if b.name not in grid0.block][:5], [b.name for b in grid0.blocklist if b.name not in grid.block][:5])
+                    rep.violation(key + ":P_reread_grid", "P_reread_grid", det)
+                    return
             # the reconstructed geometry may be asked for in another naming convention: the block map then carries every name
             conv2 = geo.convention if rng.random() < 0.6 else rng.choice([c for c in (0, 1, 2) if c != geo.convention and (c != 1 or geo.num_columns <= 99)])
             det["rectgeo_convention"] = conv2
@@ -137,6 +144,8 @@ def run(tier):
                     origin, angle = [0.0, 0.0, 0.0], 0.0
                     if n % 10 == 0:     # block centres with a coordinate of exactly zero
                         origin = [-0.5 * b["dx"][0] * scale, -0.5 * b["dy"][0] * scale, 0.5 * b["dz"][0] * scale]
+                    elif n % 20 == 5 and scale != 125.0:   # the whole model above z = 0 (through a data file: a block without a centre
+                        origin = [0.0, 0.0, 2.0 * sum(b["dz"]) * scale]     # stays without one); elevations still exact in four digits
                 atmvol = rng.choice([None, None, 0.0, 1.0e30]) if atm else None
                 with core.quiet():
                     geo = m.mulgrid().rectangular([x * scale for x in b["dx"]], [x * scale for x in b["dy"]], [x * scale for x in b["dz"]],
@@ -154,7 +163,7 @@ def run(tier):
                     geo.setup_block_connection_name_index()
                 viafile = (n % 5 == 0)
                 if viafile:             # keep the coordinates small: a file only carries four digits of them
-                    origin, angle = [0.0, 0.0, 0.0], 0.0
+                    origin, angle = [0.0, 0.0, origin[2] if (n % 20 == 5 and scale != 125.0) else 0.0], 0.0
                 key = "box%dx%dx%d:atm%d" % (len(b["dx"]), len(b["dy"]), len(b["dz"]), atm)
                 det = {"box": b, "scale": scale, "atmos_type": atm, "convention": conv, "origin": origin, "angle": angle, "atmosphere_volume": atmvol,
                        # (without snapping, a surface recovered from block centres must be exact: no rotation, no offset, no file)
